@@ -182,6 +182,47 @@ def reference(root, cfg, spec):
         return dict(ok=False, error=f"{type(e).__name__}: {e}")
 
 
+REF_SCRIPT = r"""
+import sys, json, base64
+sys.path.insert(0, sys.argv[1])
+sys.path.insert(0, sys.argv[2])
+import c19
+root, cfg, spec = sys.argv[3], json.loads(sys.argv[4]), json.loads(sys.argv[5])
+r = c19.reference(root, cfg, spec)
+if r.get("csv") is not None:
+    r["csv"] = base64.b64encode(r["csv"]).decode()
+sys.stdout.write("C19REF " + json.dumps(r))
+"""
+
+
+def references_fresh(jobs):
+    """the library pipeline for every (root, cfg, spec) in ITS OWN fresh interpreter (so that no module-level state -- caches, mutated
+    defaults -- left by an earlier file can leak into the reference), run concurrently; returns results in order"""
+    import base64
+    from concurrent.futures import ThreadPoolExecutor
+    env = dict(os.environ)
+    env["PYTHONPATH"] = REPO + (os.pathsep + env["PYTHONPATH"] if env.get("PYTHONPATH") else "")
+    env["PYTHONDONTWRITEBYTECODE"] = "1"
+
+    def one(job):
+        root, cfg, spec = job
+        try:
+            p = subprocess.run([sys.executable, "-W", "ignore", "-c", REF_SCRIPT, os.path.dirname(os.path.abspath(__file__)), REPO, root, json.dumps(cfg), json.dumps(spec)],
+                               env=env, stdout=subprocess.PIPE, stderr=subprocess.PIPE, timeout=CLI_TIMEOUT)
+            out = p.stdout.decode(errors="replace")
+            k = out.rfind("C19REF ")
+            if k < 0:
+                return dict(ok=False, error="reference process failed: " + p.stderr.decode(errors="replace")[-300:])
+            r = json.loads(out[k + 7:])
+            if r.get("csv") is not None:
+                r["csv"] = base64.b64decode(r["csv"])
+            return r
+        except subprocess.TimeoutExpired:
+            return dict(ok=False, error="reference process timed out")
+    with ThreadPoolExecutor(max_workers=8) as ex:
+        return list(ex.map(one, jobs))
+
+
 def run_cli(rundir, root, cfg, specs, nproc, observe):
     os.makedirs(rundir, exist_ok=True)
     env = dict(os.environ)
@@ -347,6 +388,7 @@ def plan(ctx, rng):
         runs += [(0, [0, 1], 1, False), (0, [0, 2, 1], 1, True), (0, [1, 0, 2], 2, True), (0, [0, 1], 3, True)]
         cfg = gen_cfg(rng)
         cfg["dist_fn"] = "normal" if cfg["dist_mc"] == "lognormal" else "lognormal"   # options must not be mixed up
+        cfg["filt"] = [0.1, 30.0]     # a band-pass on files of different sampling rates within one worker (per-file filter design)
         k = int(rng.integers(4, 6))
         rates = [500, 100] + [int(rng.choice(RATES)) for _ in range(k - 2)]
         rng.shuffle(rates)
@@ -415,7 +457,12 @@ def run(ctx):
             build_scenario(roots[0], scen[0][0], dup)
             dupf = ex.submit(run_cli, os.path.join(roots[0], "run_same_stem"), roots[0], scen[0][0], dup, 1, False)
             # meanwhile: the reference for every (settings, file), in this process
-            refs = [{s["stem"]: reference(roots[i], cfg, s) for s in specs} for i, (cfg, specs) in enumerate(scen)]
+            jobs = [(roots[i], cfg, s) for i, (cfg, specs) in enumerate(scen) for s in specs]
+            flat = references_fresh(jobs)
+            refs, k = [], 0
+            for i, (cfg, specs) in enumerate(scen):
+                refs.append({s["stem"]: flat[k + j] for j, s in enumerate(specs)})
+                k += len(specs)
             clis = [f.result() for f in futs]
             dupr = dupf.result()
         ctx.notes.append("same-stem probe (outside the stated assumption): `cli d1/x.mseed d2/x.mseed --nproc 1` exit=%s wrote %d csv file(s) "
@@ -506,7 +553,7 @@ def replay(case):
     try:
         cfg, files = case["cfg"], case["files"]
         build_scenario(root, cfg, files)
-        refs = {s["stem"]: reference(root, cfg, s) for s in files}
+        refs = {s["stem"]: r for s, r in zip(files, references_fresh([(root, cfg, s) for s in files]))}
         cli = run_cli(os.path.join(root, "run"), root, cfg, files, case["nproc"], case.get("observe", False))
         mo = run_driver(model_lines(cfg, [refs[s["stem"]].get("samples", 0) for s in files], case["nproc"]), exe=EXE)
         bad = judge(case, cli, refs, mo)
